@@ -391,7 +391,33 @@ def measure_catch_table(proto='HTTP/1.1', head=False):
                 _inject['exc'] = None
             st = obs['status']
             table[(s, name)] = 500 if st >= 500 else st
+        if proto == 'HTTP/1.1' and not head and set(v for k, v in table.items() if k[0] == s) == {base['status']}:
+            # Nothing that was injected had any effect - not even the HTTPError(400) the stub raises itself: the module
+            # global that named the callee is no longer what the code calls (renamed helper, `from x import y`
+            # instead of `import x`).  The site cannot be measured on this tree; the rows last measured on /repo
+            # stand in, so that the theorems keep talking about the other sites (the request streams still judge this one).
+            UNMEASURABLE.add(s)
+            old_rows = committed_rows()
+            for name, _cls in UNIVERSE + [(HTTP400, None)]:
+                if (s, name) in old_rows:
+                    table[(s, name)] = old_rows[(s, name)]
     return table
+
+
+UNMEASURABLE = set()
+
+
+def committed_rows():
+    """(site, class) -> status as in the generated table on disk (written by the last run)."""
+    import re
+    out = {}
+    try:
+        src = open(os.path.join(common.VERIF, 'lean', 'CpModel', 'Gen', 'C07Tables.lean')).read()
+    except OSError:
+        return out
+    for m in re.finditer(r'\(\.(\w+), \.(\w+), (\d+)\)', src):
+        out[(m.group(1), m.group(2))] = int(m.group(3))
+    return out
 
 
 def live_hierarchy():
@@ -411,6 +437,10 @@ RESP_SAMPLES = {'empty': [''], 'ascii': ['abc', 'a b;c="d"'], 'latin1': ['h\xe9'
 def resp_encode_real(p11, value):
     """`HeaderMap.output()` for one value, on a map prepared the way Request.run prepares response.headers.
     Returns ('ok', bytes) | ('err', class name)."""
+    return app.guarded(lambda: _resp_encode_real(p11, value), ('err', 'Hang'))
+
+
+def _resp_encode_real(p11, value):
     from cherrypy.lib import httputil
     try:
         h = httputil.HeaderMap()
@@ -523,6 +553,8 @@ def tables(ctx):
     ctx.extra['repair_flags'] = flags
     ctx.extra['resp_encode_table'] = {'%s:%s' % ('1.1' if k[0] else '1.0', k[1]): v for k, v in enc.items()}
     ctx.extra['catch_table_rows'] = len(rows)
+    if UNMEASURABLE:
+        ctx.extra['catch_sites_not_measurable'] = sorted(UNMEASURABLE)
     ctx.extra['catch_table_5xx'] = sorted('%s:%s' % k for k, v in tab.items() if v >= 500 and k[1] in CONTRACT[k[0]] + [HTTP400])
     return {'CpModel/Gen/C07Tables.lean': '\n'.join(L) + '\n'}
 
@@ -659,8 +691,32 @@ DIGEST_FLOW = tok.DigestFlow()
 BASIC_FLOW = tok.BasicFlow()
 
 
+SIG_ALIAS = {}      # signature a known witness produces on THIS tree -> the recorded signature of that finding
+
+
+def learn_alias(entry, obs):
+    """A known finding is identified by `module:function:Class[:marker]` of the innermost cherrypy frame.  A refactor
+    that preserves behaviour (helper extracted / renamed / moved) changes module or function for the witness and for
+    every other input that runs into the same defect alike: whatever the witness produces now - still a 5xx, same
+    exception class, same marker - stands for the recorded signature during this run."""
+    want = (entry.get('signature') or '').split(':')
+    if obs['status'] < 500 or len(want) < 3:
+        return
+    got = app.signature(obs).split(':')
+    if len(got) >= 3 and got[2:] == want[2:] and got != want:
+        SIG_ALIAS[':'.join(got)] = ':'.join(want)
+
+
+def sig_of(obs):
+    sig = app.signature(obs)
+    return SIG_ALIAS.get(sig, sig)
+
+
 def check_request(ctx, c, obs=None):
     obs = obs or run_request(c)
+    if obs.get('skipped'):
+        ctx.count('not-run-after-hangs')
+        return obs
     ctx.case(c, nontrivial=nontrivial(c), key=case_key(c))
     if c.get('digest') is not None or c['target'] == 'digest':
         DIGEST_FLOW.observe(c, obs)
@@ -670,7 +726,7 @@ def check_request(ctx, c, obs=None):
     ctx.count('status:%s' % obs['status'])
     ctx.count('proto:%s:%s' % (c.get('proto'), c['method'] if c['method'] in ('GET', 'HEAD', 'POST') else 'other'))
     if obs['status'] >= 500:
-        sig = app.signature(obs)
+        sig = sig_of(obs)
         ctx.count('5xx:' + sig)
         ctx.oracle_fail(c, '%s -> status %s (%s)' % (describe_sent(c, obs), obs['status'], sig), sig)
         if app.HANG['n'] >= 6 and len(ctx.oracle_failures) >= 1:
@@ -715,7 +771,7 @@ def _merge_hits(hits):
 
 def request_stream(ctx, n):
     dctx = {'realm': app.REALM, 'key': app.DIGEST_KEY, 'now': app.FIXED_NOW}
-    if ctx.quick() or n <= 6000:
+    if ctx.quick() or n <= 10000:
         for _ in range(n):
             c = gen.gen_case(ctx.rng, digest_ctx=dctx)
             check_request(ctx, c)
@@ -741,10 +797,10 @@ def cross_cases(rng, quick):
         cs += gen.session_cases(rng)
         cs += gen.conditional_cases(rng)
         cs += gen.encword_cases(rng)
-    cs += gen.cache_cases(rng, 250 if quick else 4000)
-    cs += gen.reflect_cases(rng, 2 if quick else 36)
+    cs += gen.cache_cases(rng, 400 if quick else 4000)
+    cs += gen.reflect_cases(rng, 3 if quick else 36)
     cs += gen.dispatch_cases(rng, 400 if quick else 6000)
-    cs += gen.chunked_cases(rng, 500 if quick else 8000)
+    cs += gen.chunked_cases(rng, 700 if quick else 8000)
     return gen.debug_twins(rng, cs)
 
 
@@ -791,6 +847,10 @@ def H(b):
 
 
 def _real_class(f):
+    return app.guarded(lambda: _real_class_unguarded(f))
+
+
+def _real_class_unguarded(f):
     try:
         f()
         return 'ok'
@@ -908,7 +968,8 @@ def real_unit(desc):
     proto = _proto_of(desc)
     if kind == 'ranges':
         _, hv, ln = desc
-        raw = _real_class(lambda: httputil._get_ranges(hv, ln))
+        # (`_get_ranges` is a private helper: when a refactor renamed it, only the status at the site is compared)
+        raw = _real_class(lambda: httputil._get_ranges(hv, ln)) if hasattr(httputil, '_get_ranges') else '?'
         obs = app.call(_req('GET', '/file', [['Range', hv]], proto=proto))
         return '%s %s' % (raw, _cls_status(obs['status'])), obs
     if kind == 'qs':
@@ -953,10 +1014,13 @@ def unit_stream(ctx, n):
     lines = ctx.model([c[0] for c in cases])
     for i, (line, desc) in enumerate(cases):
         real, obs = real_unit(desc)
+        if (obs is not None and obs.get('skipped')) or app.SKIPPED in real:
+            ctx.count('not-run-after-hangs')
+            continue
         ctx.case({'unit': list(desc)}, nontrivial=True, key=line)
         ctx.count('unit:%s:%s' % (desc[0], real))
         if obs is not None and obs['status'] >= 500:
-            sig = app.signature(obs)
+            sig = sig_of(obs)
             ctx.oracle_fail({'unit': list(desc)}, 'unit %s %r -> status %s (%s)' % (desc[0], desc[1:], obs['status'], sig), sig)
             continue
         if lines is not None:
@@ -971,7 +1035,7 @@ def unit_agree(kind, real, model):
     if kind == 'ranges':
         r = real.split(' ')
         m = model.split(' ')
-        return r[0] == m[0] and (r[1] in ('st:200', 'st:206', 'st:416')) == (m[1] == 'st:200')
+        return (r[0] == m[0] or r[0] == '?') and (r[1] in ('st:200', 'st:206', 'st:416')) == (m[1] == 'st:200')
     return real == model
 
 
@@ -987,7 +1051,12 @@ def check_contract_copy(ctx):
     # the model's catch map against fresh measurements (same data as the generated table, compared through the
     # driver), for HTTP/1.1 GET/POST probes, the same probes as HTTP/1.0, and as HEAD over HTTP/1.0
     for proto, head in (('HTTP/1.1', False), ('HTTP/1.0', False), ('HTTP/1.0', True), ('HTTP/1.1', True)):
+        if app.HANG['n'] >= 6:
+            break
         tab = measure_catch_table(proto, head)
+        for site in sorted(UNMEASURABLE):
+            ctx.count('catch:injection-ineffective:%s' % site)
+            tab = {k: v for k, v in tab.items() if k[0] != site}
         if (proto, head) != ('HTTP/1.1', False):
             # a probe that does not reach its site under this protocol / method (Range is not looked at for
             # HTTP/1.0) answers the same whatever is injected: nothing to compare there
@@ -1026,7 +1095,7 @@ def run_case(ctx, case):
         real, obs = real_unit(desc)
         ctx.case(case, key=cases[0][0])
         if obs is not None and obs['status'] >= 500:
-            sig = app.signature(obs)
+            sig = sig_of(obs)
             ctx.oracle_fail(case, 'unit %s -> status %s (%s)' % (desc[0], obs['status'], sig), sig)
         elif lines is not None:
             ctx.compared()
@@ -1071,6 +1140,9 @@ def run(ctx):
         # known findings first: each witness must still reproduce with exactly its signature
         for e in ctx.known:
             if e.get('status') == 'known':
+                learn_alias(e, run_request(e['witness']))
+        for e in ctx.known:
+            if e.get('status') == 'known':
                 check_request(ctx, e['witness'])
             elif e.get('status') == 'fixed' and e.get('witness'):
                 for w in (e['witness'] if isinstance(e['witness'], list) else [e['witness']]):
@@ -1080,7 +1152,7 @@ def run(ctx):
         check_contract_copy(ctx)
         fuzz_contracts(ctx, ctx.budget(1500, 40000))
         unit_stream(ctx, ctx.budget(3500, 120000))
-        tok.tok_stream(ctx, ctx.budget(3000, 90000))
+        tok.tok_stream(ctx, ctx.budget(4500, 90000))
         tok.dinit_stream(ctx, ctx.budget(400, 8000))
         tok.respenc_stream(ctx, ctx.budget(400, 8000))
         tok.bind_stream(ctx, ctx.budget(1500, 40000))
@@ -1088,7 +1160,7 @@ def run(ctx):
         tok.unq_stream(ctx, ctx.budget(600, 20000))
         tok.dispatch_e2e(ctx, ctx.budget(500, 10000))
         cross_stream(ctx)
-        request_stream(ctx, ctx.budget(6000, 400000))
+        request_stream(ctx, ctx.budget(10000, 400000))
         DIGEST_FLOW.flush(ctx)
         BASIC_FLOW.flush(ctx)
     except StopStreams:
@@ -1123,7 +1195,7 @@ def search(ctx, around=None):
             for line, desc in unit_cases(ctx, ctx.budget(10000, 100000)):
                 _real, obs = real_unit(desc)
                 if obs is not None and obs['status'] >= 500:
-                    sig = app.signature(obs)
+                    sig = sig_of(obs)
                     ctx.oracle_fail({'unit': list(desc)}, 'unit %s -> status %s (%s)' % (desc[0], obs['status'], sig), sig)
                     break
     except StopStreams:
